@@ -33,6 +33,33 @@ def summarize(rec):
     return ",".join(o), ",".join(e), end
 
 
+def levels_differ(p, i, lvl):
+    """does the implementation at level `lvl` differ from its level 0 on this (terminating) program?"""
+    if not p: return False
+    e = (enc_prog(p), enc_text(i))
+    m = model_exec(["one %s %s 3000" % e])[0]
+    if m.endswith("END cut") or unjudged(m): return False       # only terminating programs can be run incrementally
+    a0 = impl_exec(["inc %s %s 100000" % e])[0]; a = impl_exec(["run%d %s %s 100000" % ((lvl,) + e)])[0]
+    if unjudged(a0, a): return False
+    s0, s = summarize(a0), summarize(a)
+    return not (s == s0 or (s0[2].startswith("err") and s[2].startswith("err")))
+
+
+def shrink_levels(p, i, lvl, budget=120):
+    used = 0; changed = True
+    while changed and used < budget:
+        changed = False
+        for k in range(len(p) - 1, -1, -1):
+            q = p[:k] + p[k + 1:]; used += 1
+            if used > budget: break
+            if levels_differ(q, i, lvl): p = q; changed = True
+        for k in range(len(i) - 1, -1, -1):
+            j = i[:k] + i[k + 1:]; used += 1
+            if used > budget: break
+            if levels_differ(p, j, lvl): i = j; changed = True
+    return p, i
+
+
 def run_binary(args):
     path, level, stdin, timeout = args
     try:
@@ -93,7 +120,9 @@ def main(tier, seed):
         m1 = model_exec(["run1 %s %s 100000" % c for c in tcases])
         m2 = model_exec(["run2 %s %s 100000" % c for c in tcases])
         ends = {}
-        for c, a0, a1, a2, b1, b2 in zip(tcases, l0, l1, l2, m1, m2):
+        tsrc = [progs[k] for k, t in enumerate(term) if t]
+        nshrunk = 0
+        for c, a0, a1, a2, b1, b2, src in zip(tcases, l0, l1, l2, m1, m2, tsrc):
             if unjudged(a0, a1, a2, b1, b2):
                 rep.count("skipped-resource-limit"); continue
             rep.count("library-run-levels", 3)
@@ -105,7 +134,14 @@ def main(tier, seed):
                 if not same and s0[2].startswith("err") and s[2].startswith("err"):
                     same = True      # same kind of error; text before it may be withheld
                 if not same:
-                    rep.violation("impl-vs-spec", {"what": "level %d differs from level 0" % lvl, "prog": c[0], "stdin": c[1], "level0": s0, "optimised": s, "match_key": "run%d %s %s" % (lvl, c[0], c[1])})
+                    v = {"what": "level %d differs from level 0" % lvl, "prog": c[0], "stdin": c[1], "level0": s0, "optimised": s, "match_key": "run%d %s %s" % (lvl, c[0], c[1])}
+                    if nshrunk < 3:
+                        nshrunk += 1
+                        sp, si = shrink_levels(src[0], src[1], lvl)
+                        try: text = render_prog(sp)
+                        except ValueError: text = None
+                        v["minimised"] = {"prog": enc_prog(sp), "source": text, "stdin": si, "level": lvl}
+                    rep.violation("impl-vs-spec", v)
             for lvl, a, b in ((1, a1, b1), (2, a2, b2)):
                 if a != b:
                     rep.violation("correspondence", {"what": "level-%d run differs from the model's" % lvl, "prog": c[0], "stdin": c[1], "impl": a[:1200], "model": b[:1200]})
